@@ -29,7 +29,7 @@ CHUNK = 1500
 RULE = ("one case per geometry of the TLA+ universe (all stamps / intervals / points / boxes incl. zero extent on time 0..4 x "
         "frequency {0,1,2,3,FMAX}; 2- and 3-point lines; multi-points; rectangles cw/ccw open/closed, triangles, L-shapes, "
         "degenerate rings, polygons with one and two holes; multi-lines and multi-polygons of 1..3 members), as histories of "
-        "length 1, plus every ordered pair of regroupings of one vertex sequence (multi-lines of 4..6 points, a six-point ring vs "
+        "length 1, again 2^26 ticks late in the recording (wholly, and straddling), plus every ordered pair of regroupings of one vertex sequence (multi-lines of 4..6 points, a six-point ring vs "
         "shell + hole, nested rings grouped into polygons) converted one after the other in one process, plus random geometries "
         "and random regrouping histories on a 1000 x 5000 lattice; each member run at 3 exact time units, all 11 positions; "
         "non-trivial = not a bare time stamp")
@@ -218,6 +218,10 @@ def random_cases(rng, tier):
             c = [_fwd_line(rng) for _ in range(rng.randint(1, 4))]
         else:
             c = [_poly(rng) for _ in range(rng.randint(1, 3))]
+        # times have no ceiling: a third of the geometries lie late in the recording (origins around and far beyond
+        # MAX_FREQUENCY seconds; 2**26 ticks are beyond it at every time unit)
+        if rng.random() < 0.35:
+            c = _late(k, c, rng.choice([5000000, 5000001, 40000000, 40000001, 2 ** 26, 2 ** 26 + 12345]))
         yield {"gs": [{"type": k, "coordinates": c}]}
     # histories: random regroupings of one forward-running vertex sequence / of one list of nested rings
     for _ in range(n // 4):
@@ -235,6 +239,19 @@ def random_cases(rng, tier):
             # holes stay with the shell or stand alone: [[shell, h1, h2]] / [[shell, h1], [h2]] / [[shell], [h1], [h2]]
             gs = [{"type": "MultiPolygon", "coordinates": [_copy(rings[:k])] + [[_copy(r)] for r in rings[k:]]} for k in ks]
         yield {"gs": gs}
+
+
+def _late(kind, c, t0):
+    """the same geometry t0 ticks later (a translation along the time axis)."""
+    if kind == "TimeStamp":
+        return c + t0
+    if kind == "TimeInterval":
+        return [c[0] + t0, c[1] + t0]
+    if kind == "BoundingBox":
+        return [c[0] + t0, c[1], c[2] + t0, c[3]]
+    if isinstance(c[0], int):
+        return [c[0] + t0, c[1]]
+    return [_late(kind, x, t0) for x in c]
 
 
 def _copy(x):
@@ -269,7 +286,8 @@ MANIFEST = {
              "shape's shell, per-type feature functions, the position-name selector table) as a pipeline and TLC checks Impl => Req "
              "plus the consistency laws (ordering, duration/bandwidth identities, every anchor on the bounds, the nine names pairwise "
              "consistent, bounds recomputed from the raw tokens) for every geometry of a bounded universe of all nine kinds "
-             "(zero-extent boxes, cw/ccw open/closed rings, L-shapes, degenerate rings, holes, multi-geometries of 1..3 parts). "
+             "(zero-extent boxes, cw/ccw open/closed rings, L-shapes, degenerate rings, holes, multi-geometries of 1..3 parts; on time "
+             "ticks 0..4 and again 2^26 ticks late -- times have no ceiling, only frequencies do). "
              "Histories -- regroupings of one vertex sequence converted one after the other, with no state carried over in Impl -- "
              "show anything the library keeps between conversions. Every geometry is then built for real, in history order within "
              "one process, at three dyadic time units; compute_bounds, geometry_to_shapely (every coordinate "
